@@ -43,6 +43,8 @@ func (br *beat2Reader) Read() ([]any, bool, error) {
 		if err != nil {
 			return nil, false, err
 		}
+		// the cache is keyed by block id: the obsolete flag belongs to this read, not to the cached message
+		msg.Obsolete = block.Obsolete
 		msgs = append(msgs, msg)
 	}
 	return msgs, len(blocks) > 0, nil
